@@ -10,5 +10,6 @@ CONSTANTS
   MCWrites = 1
   MCPauses = 0
   MCPanics = {FALSE}
+  MCGoAway = TRUE
 INVARIANTS NoViolation HandlerBound CtlBound StreamLimit QuiescentOK NeverHandled
 CHECK_DEADLOCK FALSE
